@@ -69,6 +69,12 @@ func seMutations(se types.StateElement, other *types.StateElement) map[string]ty
 		m.LeafIndex--
 		out["leaf-index-1"] = m
 	}
+	// every single bit of the index, including the high ones no honest chain reaches
+	for _, k := range []uint{1, 2, 7, 16, 31, 32, 33, 40, 47, 62, 63} {
+		m = cp()
+		m.LeafIndex ^= 1 << k
+		out[fmt.Sprintf("leaf-index^2^%d", k)] = m
+	}
 	for i := range se.MerkleProof {
 		m = cp()
 		m.MerkleProof[i][i%32] ^= 1 << uint(i%8)
